@@ -473,7 +473,7 @@ func runC20(c *CaseCtx) {
 func init() {
 	register(&Check{
 		ID: "C20", Level: "exploration", NoLeakMonitor: true,
-		NCases: func(t string) int { return tier(t, 1600, 20000) },
+		NCases: func(t string) int { return tier(t, 1600, 12000) },
 		Run:    runC20,
 		Rule: "[also: 1 case in 64 is a large-geometry history with Merge and Backup; 1 in 8 KeyVal cases runs a list-heavy history with Merge calls] case = random sequence of calls on a pre-populated database: every exported Tx method (reflection-enumerated) with arguments drawn by type from boundary pools ([]byte: nil, empty, '|', 'a|b', 0x00/0xff, 70 KB; ints: 0, +-1, +-2^31, MinInt64, MaxInt64; floats: +-0, +-Inf, NaN, MaxFloat64, denormal; invalid regexps; nil options), " +
 			"in a read-only transaction, in a write transaction (followed by Commit or Rollback), on a committed / rolled-back transaction; DB.Update/View with nil and failing fn, Merge, Backup (paths confined to the scratch directory), Close and every DB call after Close; Open with hostile options; all three index modes; " +
